@@ -64,7 +64,15 @@ KnownTable ==
      <<"uuid-bad", "type", "C06/InvalidDefaultAccepted", "C06-type-level-default-not-validated">>,
      <<"vec-bad", "type", "C06/InvalidDefaultAccepted", "C06-type-level-default-not-validated">>,
      <<"vec-notarr", "type", "C06/InvalidDefaultAccepted", "C06-type-level-default-not-validated">> >>
-Known(d) == { KnownTable[i][4] : i \in { j \in DOMAIN KnownTable :
+(* type-level defaults are never validated on the pinned tree (lib.rs:691-752): every accepted
+   invalid default in position "type" belongs to that one finding; the flattened-member finding is
+   any valid struct default that reaches a typed additionalProperties map *)
+KnownSemantic(d) ==
+    (IF d = "C06/InvalidDefaultAccepted" /\ cur.pos = "type" THEN {"C06-type-level-default-not-validated"} ELSE {})
+    \cup (IF d = "C06/ValidDefaultBreaksRendering" /\ cur.pos = "prop" /\ SHas(cur.sp, "ref")
+              /\ SHas(cur.defs[cur.sp.ref], "additionalProperties") /\ ~SHas(cur.defs[cur.sp.ref].additionalProperties, "bool")
+          THEN {"C06-flattened-member-in-default"} ELSE {})
+Known(d) == KnownSemantic(d) \cup { KnownTable[i][4] : i \in { j \in DOMAIN KnownTable :
                 KnownTable[j][1] = cur.id /\ (KnownTable[j][2] = cur.pos \/ KnownTable[j][2] = "*")
                 /\ KnownTable[j][3] = d } }
 
